@@ -63,6 +63,8 @@ def case(task):
                 res['order'] = gc.order_dependence(
                     desc, seed, p, N, KEYS, fwd, with_T=with_T,
                     vacuum=vacuum)
+                res['style'] = gc.input_style_dependence(
+                    desc, seed, p, N, KEYS, fwd, with_T=with_T, vacuum=vacuum)
                 if st.Lambda != 0:
                     res['lamattr'] = gc.lambda_attribute_dependence(
                         desc, seed, p, N, KEYS, fwd, with_T=with_T,
@@ -121,6 +123,15 @@ def judge(run, task, res):
                           "the cosmological constant is assigned to "
                           "rel.Lambda after construction instead of passed "
                           "as a keyword", {'task': res['task'], 'key': k})
+    for k, d in res.get('style', {}).items():
+        run.count('input_style_comparisons')
+        if not d <= 1e-9:
+            run.violation(f"C04:input-style:{k}",
+                          f"{tag}: {k} differs by {d:.2e} (relative) when "
+                          "metric, curvature and shift are given by "
+                          "components instead of arrays (fresh instance, "
+                          "reverse request order)",
+                          {'task': res['task'], 'key': k})
     for k, d in res.get('order', {}).items():
         run.count('order_comparisons')
         if not d <= 1e-9:
